@@ -83,6 +83,16 @@ Theorem C16_slpp_writer_from_source : forall enc_peppi enc_meta enc_start enc_en
   slpp_write_tbl enc_peppi enc_meta enc_start enc_end enc_frames o g.
 Proof. exact slpp_write_from_source. Qed.
 
+From Peppi Require Proofs.ReaderTies Proofs.WriterTies.
+(* the reader model these theorems speak about is the one regenerated from the source on this run: one-shot read, every incremental
+   entry point, the event dispatch with the splitter, the Game Start wiring, the metadata reader (Proofs/ReaderTies.v reader_tied) *)
+Theorem C16_reader_is_the_source : ReaderTies.reader_tied.
+Proof. exact ReaderTies.reader_tied_holds. Qed.
+(* the writer model these theorems speak about is the one regenerated from the source on this run: the statement sequence of write(),
+   the payload-size table, the frame counts, the frame writer, the gecko blocks, the metadata writer (Proofs/WriterTies.v writer_tied) *)
+Theorem C16_writer_is_the_source : WriterTies.writer_tied.
+Proof. exact WriterTies.writer_tied_holds. Qed.
+
 Print Assumptions C16_write_ok.
 Print Assumptions C16_read_write.
 Print Assumptions C16_truncated_rejected.
@@ -96,3 +106,5 @@ Print Assumptions C16_depth_guard_from_source.
 Print Assumptions C16_writer_bodies_from_source.
 Print Assumptions C16_metadata_entry_from_source.
 Print Assumptions C16_slpp_writer_from_source.
+Print Assumptions C16_reader_is_the_source.
+Print Assumptions C16_writer_is_the_source.
